@@ -181,6 +181,9 @@ func (x *Exec) call(fr *Frame, st *State, c *ssa.CallCommon, instr ssa.Instructi
 			et[fmt.Sprintf("ret%d", k)] = tup.At(k).Type()
 		}
 	}
+	if !pureHere {
+		x.assumeGlobalInvs(fr, st)
+	}
 	x.atSite(fr, st, site, -1, ev, et)
 	return res
 }
@@ -1047,6 +1050,26 @@ func (fr *Frame) reassigned(a *ssa.Alloc) bool {
 		}
 	}
 	return n > 1
+}
+
+// assumeGlobalInvs (re-)assumes the package-level invariants of the packages
+// whose state the current function can read.  They are established by the
+// package initialisers and never written afterwards (C16 frame sweep).
+func (x *Exec) assumeGlobalInvs(fr *Frame, st *State) {
+	if len(x.eng.db.GlobalInvs) == 0 {
+		return
+	}
+	root := fr
+	pkg := fnPkgPath(root.fn)
+	for _, gi := range x.eng.db.GlobalInvs {
+		if gi.PkgPath != pkg && !x.eng.imports(pkg, gi.PkgPath) {
+			continue
+		}
+		ctx := &EvalCtx{x: x, fr: fr, st: st, old: nil, pkgPath: gi.PkgPath, vars: map[string]*binding{}, src: gi.Clause.Src}
+		t, _ := ctx.evalText(gi.Clause.Text)
+		x.vc.assume(st.pc, t)
+		x.vc.usedAssumed["global invariant of "+gi.PkgPath+" (established by the package initialiser, never written: see C16): "+gi.Clause.Text] = true
+	}
 }
 
 func (x *Exec) evalClauseInt(fr *Frame, st *State, cl Clause, extra map[string]Val) string {
